@@ -47,6 +47,15 @@ def gen(rng, tier):
         tries += 1
         k = rng.choice([1, 2, 2, 3, 3])
         fam = rng.sample(terms, k)
+        if rng.random() < 0.08:
+            # two numeric-categorical interactions over the same numerics, written in different orders
+            c1, c2 = rng.sample(["f", "g", "h"], 2)
+            t1 = [c1, "x", "z"]
+            t2 = [c2, "z", "x"]
+            rng.shuffle(t1)
+            if rng.random() < 0.5:
+                rng.shuffle(t2)
+            fam = [tuple(t1), tuple(t2)] + ([rng.choice(terms)] if rng.random() < 0.3 else [])
         swap = rng.random() < 0.3
         # one spelling per variable within a formula (the analysis identifies factors by name)
         spell = {v: (rng.choice(SWAPS[v]) if swap else v) for v in VARS}
@@ -146,12 +155,14 @@ def model_class(c, mo):
     # unless every extra coding became a helper term of its own (then the second analysis is clean)
     # KF-C03-3: the numeric part of a numeric-categorical interaction is matched by the joined
     # string of its numeric component names, in the order they are written in that term
+    # (only the look-up of the PURE numeric term goes by name; mixed terms are grouped by the set
+    # of their numeric components, so two mixed terms spelled differently are fine)
     nums = [[v for v in t if v in ("x", "z")] for t in c["family"]]
     cats = [[v for v in t if v not in ("x", "z")] for t in c["family"]]
     for i, (n1, c1) in enumerate(zip(nums, cats)):
         if len(n1) >= 2 and c1:
             for j, (n2, c2) in enumerate(zip(nums, cats)):
-                if i != j and sorted(n1) == sorted(n2) and n1 != n2:
+                if i != j and not c2 and sorted(n1) == sorted(n2) and n1 != n2:
                     return "numeric_part_spelling"
     return None
 
